@@ -30,6 +30,13 @@ def main():
         print(f"unknown property {a.pid}")
         return 2
     modname, fn = DISPATCH[a.pid]
+    if a.replay:
+        # generic replay: re-run the check with the seed and tier recorded in the replay file, report only that case
+        import json
+        import common
+        rj = json.load(open(a.replay))
+        common.REPLAY_KEY, common.REPLAY_PATH = rj["key"], a.replay
+        seed, a.tier = int(rj.get("seed", seed)), rj.get("tier", a.tier)
     try:
         mod = __import__(modname)
         return getattr(mod, fn)(a.pid, a.tier, seed, selftest=a.selftest, replay=a.replay)
